@@ -300,7 +300,11 @@ fn build_chips_line(state: &TuiState, max_width: usize) -> String {
     let mut out = String::from("chips: ");
     out.push_str(&chips.join(" "));
     if out.len() > max_width {
-        out.truncate(max_width.saturating_sub(1));
+        let mut cut = max_width.saturating_sub(1);
+        while cut > 0 && !out.is_char_boundary(cut) {
+            cut -= 1;
+        }
+        out.truncate(cut);
         out.push('…');
     }
     out
